@@ -28,13 +28,13 @@ var BitsClasses = map[byte]uint32{
 
 // Opts steer the random generator.
 type Opts struct {
-	N            int     // number of submissions
-	PDup         float64 // probability of re-submitting an earlier header
-	PUnknown     float64 // probability that a new header's parent is an unknown hash
-	PLate        float64 // probability that a new header is withheld and delivered later (late parent)
-	PFork        float64 // probability of attaching to a random earlier header instead of a recent tip
-	Classes      string  // work class letters to draw from; 'R' = random uint32
-	FieldExtreme bool    // draw versions/nonce/time from the corners of their ranges
+	N            int            // number of submissions
+	PDup         float64        // probability of re-submitting an earlier header
+	PUnknown     float64        // probability that a new header's parent is an unknown hash
+	PLate        float64        // probability that a new header is withheld and delivered later (late parent)
+	PFork        float64        // probability of attaching to a random earlier header instead of a recent tip
+	Classes      string         // work class letters to draw from; 'R' = random uint32
+	FieldExtreme bool           // draw versions/nonce/time from the corners of their ranges
 	Forbidden    []refmodel.Hdr // pre-built forbidden headers that may be submitted
 	PForbidden   float64
 	PMerkleDup   float64 // probability that a new header re-uses the merkle root of an earlier one
@@ -107,14 +107,16 @@ func Fields(rng *rand.Rand, h *refmodel.Hdr, extreme bool, counter int) {
 }
 
 // CornerBits are encodings at the boundaries of the arithmetic: exponents around 0x20-0x23 (targets around 2^256:
-// tiny positive work, or none), exponents 0..4 (truncation), single-bit mantissas, sign bit with zero mantissa.
+// tiny positive work, or none), exponents 0..4 (truncation), single-bit mantissas, sign bit with zero mantissa, and work values next to 2^32 / 2^64 / 2^128 / 2^192.
 var CornerBits = []uint32{
 	0x2100ffff, 0x21000001, 0x210000ff, 0x21010000, 0x220000ff, 0x22000001, 0x22000100, 0x2000ffff, 0x207fffff, 0x23000001,
 	0x00000000, 0x00800000, 0x00800005, 0x01003456, 0x01000000, 0x02008000, 0x02923456, 0x02000012, 0x03000001, 0x03800001, 0x037fffff,
 	0x04000001, 0x04800001, 0x05000001, 0x0900ffff, 0x09010000, 0x097fffff, 0x0a000001, 0x1d008000, 0x1d7fffff, 0x1d800000, 0x1e00ffff,
+	// work just below / around 2^32, 2^64, 2^128, 2^192 (sums of two or three such headers cross a machine-word boundary)
+	0x1f000001, 0x1f000002, 0x1b000001, 0x1b000002, 0x1b000003, 0x1901ffff, 0x1900ffff, 0x13000001, 0x13000002, 0x0b000001, 0x0b000002,
 }
 
-// PickBits draws bits from the class string ('R' = random uint32, 'C' = a corner encoding).
+// PickBits draws bits from the class string ('R' = random uint32, 'C' = a corner encoding, 'W' = work next to 2^32/2^64/2^128/2^192).
 func PickBits(rng *rand.Rand, classes string) uint32 {
 	if classes == "" {
 		classes = "M"
@@ -125,6 +127,9 @@ func PickBits(rng *rand.Rand, classes string) uint32 {
 	}
 	if c == 'C' {
 		return CornerBits[rng.Intn(len(CornerBits))]
+	}
+	if c == 'W' { // work next to a machine-word boundary (the last 11 corner encodings)
+		return CornerBits[len(CornerBits)-11+rng.Intn(11)]
 	}
 	return BitsClasses[c]
 }
@@ -188,6 +193,38 @@ func Random(rng *rand.Rand, genesis refmodel.Hdr, o Opts) History {
 		}
 		out.Hdrs = append(out.Hdrs, h)
 		delivered = append(delivered, h)
+	}
+	return out
+}
+
+// DeepReorg builds a history whose last submission reorganises the chain over `depth` heights: a common prefix, a
+// branch of depth headers (longest first), then a competing branch of depth+1 headers of equal work each, which stays
+// stale until its last header overtakes.
+func DeepReorg(rng *rand.Rand, genesis refmodel.Hdr, prefix, depth int) History {
+	var out History
+	counter := 0
+	mk := func(prev refmodel.Hash) refmodel.Hdr {
+		counter++
+		h := refmodel.Hdr{Prev: prev, Bits: BitsNormal}
+		Fields(rng, &h, false, counter)
+		return h
+	}
+	p := genesis.HashOf()
+	for i := 0; i < prefix; i++ {
+		h := mk(p)
+		out.Hdrs = append(out.Hdrs, h)
+		p = h.HashOf()
+	}
+	a, b := p, p
+	for i := 0; i < depth; i++ {
+		h := mk(a)
+		out.Hdrs = append(out.Hdrs, h)
+		a = h.HashOf()
+	}
+	for i := 0; i < depth+1; i++ {
+		h := mk(b)
+		out.Hdrs = append(out.Hdrs, h)
+		b = h.HashOf()
 	}
 	return out
 }
